@@ -85,6 +85,13 @@ def cases(tier, inst):
                             if n >= 7 and (base == "join" or form == "infer"):
                                 continue
                             yield (node, order, base, form, caching)
+    # branches whose condition joins a further variable z (several z per x, taking different nested branches)
+    for n in range(2, (4 if tier == "quick" else 5) + 1):
+        for sh in binary_shapes(n):
+            node = label(sh, [0])
+            for kinds in kinds_for(node, n):
+                for caching in (True, False):
+                    yield ("zjoin", node, kinds, caching)
 
 
 def build_tree(node, x, y, views, order, inst):
@@ -156,10 +163,138 @@ def make_and_eval_twice(case, inst):
     return run_isolated(body, caching=caching)
 
 
-def run_case(case, inst):
-    node, order, base, form, caching = case
+# ---------------------------------------------------------------- branches that join a further variable
+def rdr_join(node, kinds, env, links):
+    """ripple-down semantics when a branch condition may bind a further variable z (kind 'z': z.ref == x and z.t[i] == 1):
+    the node fires once per extension of the environment that satisfies its condition; each extension gets the node's
+    conclusion unless its refinement fires under it; the alternative is tried only if the node did not fire at all.
+    Returns a list of (tag, environment)."""
+    i, ref, alt = node
+    if kinds[i] == "x":
+        exts = [env] if env["x"][1][i] == 1 else []
+    elif "z" in env:
+        exts = [env] if env["z"][1][i] == 1 else []
+    else:
+        exts = [dict(env, z=z) for z in links[env["x"][0]] if z[1][i] == 1]
+    if exts:
+        out = []
+        for e in exts:
+            rc = rdr_join(ref, kinds, e, links) if ref is not None else []
+            out += rc if rc else [(i, e)]
+        return out
+    return rdr_join(alt, kinds, env, links) if alt is not None else []
+
+
+def build_join_tree(node, kinds, x, z, views, z_bound, inst):
+    i, ref, alt = node
+    own_bound = z_bound or kinds[i] == "z"
+    Add(views, W.Made(a=x, b=inst.v(i + 1), c=z) if own_bound else W.Made(a=x, b=inst.v(i + 1)))
+
+    def cond(j):
+        if kinds[j] == "x":
+            return [x.t[j] == inst.v(1)]
+        return [z.ref == x, z.t[j] == inst.v(1)]
+
+    if ref is not None:
+        with refinement(*cond(ref[0])):
+            build_join_tree(ref, kinds, x, z, views, own_bound, inst)
+    if alt is not None:
+        with alternative(*cond(alt[0])):
+            build_join_tree(alt, kinds, x, z, views, z_bound, inst)
+
+
+def permute(lst, mode):
+    if mode == 1:
+        return lst[::-1]
+    if mode == 2 and len(lst) > 1:
+        return lst[1:] + lst[:1]
+    return lst
+
+
+def join_make_and_eval_twice(case, inst, xperm=0, zperm=0):
+    _, node, kinds, caching = case
     n = size(node)
-    out, exp = make_and_eval_twice(case, inst)
+    xbits = [i for i in range(n) if kinds[i] == "x"]
+    zbits = [i for i in range(n) if kinds[i] == "z"]
+
+    def body():
+        xs, zs, links = [], [], {}
+        for xv in itertools.product((1, 2), repeat=len(xbits)):
+            xval = [1] * n
+            for b, v in zip(xbits, xv):
+                xval[b] = v
+            xo = W.Item(t=tuple(inst.v(v) for v in xval), tag="x" + "".join(map(str, xv)))
+            xs.append(xo)
+            links[id(xo)] = []
+            for zv in itertools.product((1, 2), repeat=len(zbits)):
+                zval = [1] * n
+                for b, v in zip(zbits, zv):
+                    zval[b] = v
+                zo = W.Item(t=tuple(inst.v(v) for v in zval), ref=xo, tag=f"z{''.join(map(str, xv))}_{''.join(map(str, zv))}")
+                zs.append(zo)
+                links[id(xo)].append((zo, tuple(zval)))
+            links[id(xo)] = list(reversed(links[id(xo)])) if len(xs) % 2 == 0 else links[id(xo)]
+        # z domain order: interleave so that different nested branches alternate
+        zs_sorted = sorted(zs, key=lambda o: o.tag[::-1])
+        exp = []
+        for xo in xs:
+            xval = tuple(1 if v == inst.v(1) else 2 for v in xo.t)
+            lk = {id(xo): [(zo, zval) for zo, zval in links[id(xo)]]}
+            for tag, env in rdr_join(node, kinds, {"x": (id(xo), xval)}, lk):
+                zo = env.get("z")
+                exp.append(repr(("made", "Made", Q.norm(xo), Q.norm(inst.v(tag + 1)), Q.norm(zo[0] if zo else None))))
+        exp.sort()
+        try:
+            with symbolic_mode():
+                x = let(W.Item, permute(xs, xperm))
+                z = let(W.Item, permute(zs_sorted, zperm))
+                views = let(W.View)
+                q = an(entity(views, x.t[0] == inst.v(1)))
+            with rule_mode(q):
+                build_join_tree(node, kinds, x, z, views, False, inst)
+        except Exception as e:
+            return [("build",) + exc_obs(e)], exp
+        out = []
+        for _ in range(2):
+            try:
+                out.append(sorted(repr(Q.norm(r)) for r in q.evaluate()))
+            except Exception as e:
+                out.append(exc_obs(e))
+        return out, exp
+
+    return run_isolated(body, caching=caching)
+
+
+def introduces_z_with_alternative(node, kinds, z_bound=False):
+    """does some node that INTRODUCES z (kind z, z not bound on entry) have an alternative?  Whether such a node `fired`
+    for the purposes of its alternative is read per (x, z) row by the library and could as well be read per x; the
+    statement does not settle it, so these trees are left out of the space."""
+    if node is None:
+        return False
+    i, ref, alt = node
+    own = z_bound or kinds[i] == "z"
+    if kinds[i] == "z" and not z_bound and alt is not None:
+        return True
+    return introduces_z_with_alternative(ref, kinds, own) or introduces_z_with_alternative(alt, kinds, z_bound)
+
+
+def kinds_for(node, n, unambiguous_only=True):
+    """every assignment of a kind (condition on x / join with z) to the non-base nodes, at least one z"""
+    for ks in itertools.product("xz", repeat=n - 1):
+        if "z" in ks and not (unambiguous_only and introduces_z_with_alternative(node, ("x",) + ks)):
+            yield ("x",) + ks
+
+
+def run_case(case, inst):
+    if case[0] == "zjoin":
+        _, node, kinds, caching = case
+        n = size(node)
+        out, exp = join_make_and_eval_twice(case, inst)
+        order, base, form = "ra", "zjoin:" + "".join(kinds), "an"
+    else:
+        node, order, base, form, caching = case
+        n = size(node)
+        out, exp = make_and_eval_twice(case, inst)
     res = {"ok": True, "nontrivial": n >= 2, "transitions": 2,
            "tags": [f"nodes={n}", f"order={order}", f"base={base}", f"form={form}", f"caching={'on' if caching else 'off'}"]
                    + (["ref_under_ref"] if node[1] and node[1][1] else [])
@@ -215,6 +350,13 @@ def show(node, inst, depth=1, ycond=""):
 
 
 def describe(case, inst):
+    if case[0] == "zjoin":
+        _, node, kinds, caching = case
+        return (f"{'enable' if caching else 'disable'}_caching()\n# rule tree {node} (node = (index, refinement, alternative)); "
+                f"node kinds {kinds}: 'x' = condition x.t[i] == 1, 'z' = refinement/alternative(z.ref == x, z.t[i] == 1);\n"
+                "# xs = one Item per valuation of the x-kind bits, zs = for every x one Item(ref=x) per valuation of the z-kind "
+                "bits; q = an(entity(views := let(View), x.t[0] == 1)); conclusions Add(views, Made(a=x, b=i+1[, c=z]))\n"
+                "rows1 = list(q.evaluate()); rows2 = list(q.evaluate())   # expected: eqlmc.props.c12.rdr_join")
     node, order, base, form, caching = case
     n = size(node)
     return (f"{'enable' if caching else 'disable'}_caching()\n"
